@@ -512,7 +512,8 @@ Proof.
       * intros s2 H2. eapply g_le; [apply Hd; exact H2 | lia].
       * lia.
       * intros Hnf. specialize (Hf Hnf). lia.
-    + destruct Hk as [Hk | [Hk Hbig]]; subst kd.
+    + destruct (n <? 0)%Z; [exact I |].
+      destruct Hk as [Hk | [Hk Hbig]]; subst kd.
       * apply dec_known_g1 with (L := len s); [exact Hd | lia |].
         intros Hnf. specialize (Hf Hnf). lia.
       * apply dec_known_g0 with (L := len s); [exact Hd | lia |].
@@ -952,10 +953,10 @@ Example zero_width_needs_count_many_steps :
   dec a_ops 1000 [] (TSeq KVec (TPrim PUnit)) (mkA [254; 255; 255; 255; 15]%N [] []) = Fuel.
 Proof. vm_compute. reflexivity. Qed.
 
-(* worse in the model: a negative count other than -1 is cast `as usize`; the single byte 3 is
-   the var-int of -2, and Vec<()> then loops 2^64 - 2 times *)
-Example zero_width_negative_count_many_steps :
-  dec a_ops 1000 [] (TSeq KVec (TPrim PUnit)) (mkA [3]%N [] []) = Fuel.
+(* a negative count other than -1 (the single byte 3 is the var-int of -2) used to be cast
+   `as usize` to 2^64 - 2 iterations; it is rejected since /repo 843c370 *)
+Example zero_width_negative_count_rejected :
+  dec a_ops 1000 [] (TSeq KVec (TPrim PUnit)) (mkA [3]%N [] []) = Err EDeserializationFailure.
 Proof. vm_compute. reflexivity. Qed.
 
 (* the unknown-size form (count -1, byte 1) is harmless: a tag byte per item *)
